@@ -25,7 +25,7 @@ FUNCTIONS = ['codegen_sw', 'codegen_proj', 'codegen_normsq', 'MultiVector.__rshi
              'do_codegen (canonical re-sorting, getattr by blade name)', 'lambdify + sympy cse', 'KingdonPrinter', 'tosympy',
              'generated sw_/proj_/normsq_ functions']
 ASSUMPTIONS = ['coefficients are reals; patterns/configurations enumerated, values symbolic']
-BOUNDS = {'quick': 'all (p,q,r) d<=3: d<=2 sampled ordered patterns (incl. permuted), d=3 grade unions, single blades, random sparse; d=4 systematic grade-block pairs (parity-pure / one- and two-grade blocks x every grade) + sparse; options cse=False / sympy symbols / wrapper (second pass) on a slice; reflected operands (number, list, tuple, callable on the left); null-blade conjugators in algebras with r >= 2; twin algebras',
+BOUNDS = {'quick': 'all (p,q,r) d<=3: d<=2 sampled ordered patterns (incl. permuted), d=3 grade unions, single blades, random sparse; d=4 systematic grade-block pairs (parity-pure / one- and two-grade blocks x every grade) + sparse; options cse=False / sympy symbols / wrapper (second pass) on a slice; reflected operands (number, list, tuple, callable on the left); null-blade conjugators in algebras with r >= 2; twin algebras; graded mode over degenerate metrics (whole-grade operands, 5 signatures)',
           'thorough': 'd<=2 all ordered pattern pairs for three signatures, d=3 5k subset pairs, d=4 all (p,q,r) sparse and five signatures of grade blocks, d=5 sparse'}
 OUTSIDE = ['d > 5', 'dense operands in d >= 5 (code generation time)', 'floating-point rounding']
 OPTS = {'rlimit': 200_000_000, 'canary_every': 15}
